@@ -1,6 +1,7 @@
 import Rbp.Spec.PushRules
 import Rbp.Proofs.Tokens
 import Rbp.Generated.Consts
+import Rbp.Proofs.Base58Check
 /-!
 # C06 — fork coins: scripts are tokenised by Bitcoin push rules and typed by template
 Property theorems only; helper lemmas live in Rbp/Proofs and next to the definitions they are about.
@@ -56,6 +57,19 @@ theorem address_formula (ver : UInt8) (s : Bytes) :
   · cases tokens s with
     | none => simp
     | some els => simp only; split <;> simp
+
+/-- the addresses of `address_formula` decode, with a valid checksum, to the coin's version byte followed by the pushed hash
+    (P2PKH), by HASH160 of the pushed key (P2PK), or to 0x05 followed by the pushed hash (P2SH) -/
+theorem address_decodes (ver : UInt8) (s : Bytes) :
+    (∀ h, tokens s = some [.op 0x76, .op 0xa9, .data h, .op 0x88, .op 0xac] →
+      ∃ a, (evalCustom ver s).address = some a ∧ A.base58checkDecode a = some (ver :: h)) ∧
+    (∀ k, tokens s = some [.data k, .op 0xac] →
+      ∃ a, (evalCustom ver s).address = some a ∧ A.base58checkDecode a = some (ver :: A.hash160 k)) ∧
+    (∀ h, tokens s = some [.op 0xa9, .data h, .op 0x87] →
+      ∃ a, (evalCustom ver s).address = some a ∧ A.base58checkDecode a = some (5 :: h)) := by
+  obtain ⟨a1, a2, a3, _⟩ := address_formula ver s
+  exact ⟨fun h ht => ⟨_, a1 h ht, A.base58checkDecode_base58check _⟩, fun k ht => ⟨_, a2 k ht, A.base58checkDecode_base58check _⟩,
+    fun h ht => ⟨_, a3 h ht, A.base58checkDecode_base58check _⟩⟩
 
 /-- no input can make evaluation fail: the panic-site model of the evaluator never panics (see C14) -/
 theorem eval_total (ver : UInt8) (s : Bytes) (hlen : s.length < 2^63) : SM.eval ver s = .ok (evalCustom ver s) :=
